@@ -943,9 +943,8 @@ pub fn run_t1(profile: &T1Profile, tape: Tape, opts: &T1Opts) -> RunOut {
             evbuf.clear();
             h2::verif::take_events(&mut evbuf);
             if !evbuf.is_empty() {
-                if let Some(side) = side_of(&exec.tasks[id].name) {
-                    mon.push_events(side, &evbuf, exec.step);
-                }
+                let step_now = exec.step;
+                crate::exec::route_events(&evbuf, side_of(&exec.tasks[id].name), |side, e| mon.push_events(side, &[e], step_now));
             }
             let pr = h2::verif::take_problems();
             if !pr.is_empty() {
